@@ -335,14 +335,17 @@ class Compiler:
         self.bytecode[pos + 1] = target & 0xFF  # Low byte
         self.bytecode[pos + 2] = (target >> 8) & 0xFF  # High byte
 
-    def _emit_exit_cleanup(self, target: Optional[LoopContext]) -> None:
+    def _emit_exit_cleanup(
+        self, target: Optional[LoopContext], pending_value: bool = False
+    ) -> None:
         """Emit what an abrupt exit owes to every construct it crosses.
 
         Walks the scope stack from the innermost construct out to `target`
         (the loop/switch/label a break or continue goes to; None for return):
         a crossed try region gets its TRY_END and its finally block inlined, a
         crossed for-in/for-of/switch gets its operand-stack slot popped (not
-        for return: the VM drops the whole frame).
+        for return: the VM drops the whole frame).  pending_value: a return
+        value waits on the operand stack while the finally blocks run.
         """
         i = len(self.loop_stack)
         while i > 0:
@@ -357,7 +360,18 @@ class Compiler:
                     # The finally block runs outside its own try statement
                     inner = self.loop_stack[i:]
                     del self.loop_stack[i:]
+                    # A return keeps its value, and the slots of the constructs
+                    # it has crossed, on the operand stack until the frame is
+                    # dropped: a break or continue that leaves the finally
+                    # block gives the return up and has to pop them
+                    parked = 1 if pending_value else 0
+                    if target is None:
+                        parked += sum(getattr(c, "stack_slots", 0) for c in inner)
+                    if parked:
+                        self.loop_stack.append(PendingValueContext(stack_slots=parked))
                     self._compile_finalizer(scope.finalizer)
+                    if parked:
+                        self.loop_stack.pop()
                     self.loop_stack.extend(inner)
             elif target is not None:
                 for _ in range(scope.stack_slots):
@@ -938,7 +952,7 @@ class Compiler:
             # enclosing try run (the value waits on the operand stack)
             if node.argument:
                 self._compile_expression(node.argument)
-                self._emit_exit_cleanup(None)
+                self._emit_exit_cleanup(None, pending_value=True)
                 self._emit(OpCode.RETURN)
             else:
                 self._emit_exit_cleanup(None)
